@@ -81,6 +81,11 @@ type Reader struct {
 	Temp       string `json:"temp"`                  // delta | cumulative | delta_counters (delta for counters, cumulative for up-down counters)
 	IntervalUs int64  `json:"interval_us,omitempty"` // periodic: export interval
 	ExportP    int    `json:"export_p,omitempty"`    // periodic: vk.Perturb kind executed inside Export
+	// DropDefault (manual readers, only in cases with SumView): the reader's
+	// default aggregation selector answers Drop for every kind ("allow-list"
+	// reader); the provider-level view sets an explicit sum aggregation, which
+	// overrides the reader default, so this reader must see everything too.
+	DropDefault bool `json:"drop_default,omitempty"`
 }
 
 // Op is one step of one goroutine.
@@ -91,6 +96,12 @@ type Op struct {
 	S int    `json:"s,omitempty"` // add: attribute set index
 	V int64  `json:"v,omitempty"` // add: value in units (1 for int64 instruments, 1/8 for float64 instruments); sign dropped for counters
 	A bool   `json:"a,omitempty"` // add: pass metric.WithAttributes(kvs...) instead of a prebuilt attribute.Set
+	// M: add: how the attributes are spread over SEVERAL options of one call
+	// (the API merges them, a later option winning on a shared key): 0 one
+	// option (see A); 1 two WithAttributes options (list cut in the middle);
+	// 2 one WithAttributes option per key, keys in DESCENDING order; 3
+	// WithAttributeSet(first half) followed by WithAttributes(second half)
+	M int `json:"m,omitempty"`
 	R int    `json:"r,omitempty"` // collect: reader index
 	F bool   `json:"f,omitempty"` // collect: use a fresh ResourceMetrics instead of the goroutine's reused one
 	D int    `json:"d,omitempty"` // sleep: 0 300us, 1 1ms, 2 3ms, 3 6ms
@@ -112,6 +123,10 @@ type Case struct {
 	// configured reader must still see every measurement. The broken reader is
 	// not part of Readers and nothing is asserted about it.
 	Broken string `json:"broken,omitempty"`
+	// SumView: a provider-level view NewView(Instrument{Name:"*"},
+	// Stream{Aggregation: AggregationSum{}}) - the default aggregation of every
+	// generated instrument kind, stated explicitly.
+	SumView bool `json:"sum_view,omitempty"`
 }
 
 func kvI(k string, v int64) vk.KV   { return vk.KV{K: vk.Str(k), T: "int", I: v} }
@@ -186,6 +201,7 @@ func (g *addGen) draw(t *rapid.T, pert []int) Op {
 	op.I = rapid.IntRange(0, len(g.c.Insts)-1).Draw(t, "i")
 	op.S = rapid.IntRange(0, len(g.c.Sets)-1).Draw(t, "s")
 	op.A = rapid.IntRange(0, 3).Draw(t, "with_attributes") == 0
+	op.M = rapid.SampledFrom([]int{0, 0, 0, 0, 0, 1, 2, 3}).Draw(t, "multi_option")
 	id := int64(g.next%1023) + 1
 	g.next++
 	switch k := rapid.IntRange(0, 15).Draw(t, "vkind"); {
@@ -216,6 +232,20 @@ func genCollectorOp(t *rapid.T, nr int, pert []int, sleeps bool) Op {
 		op.D = rapid.IntRange(0, 3).Draw(t, "d")
 	}
 	return op
+}
+
+// genSumView: in a fifth of the cases the explicit sum view is installed and
+// manual readers may be "allow-list" readers (drop by default).
+func genSumView(t *rapid.T, c *Case) {
+	if rapid.IntRange(0, 4).Draw(t, "sum_view") != 0 {
+		return
+	}
+	c.SumView = true
+	for i := range c.Readers {
+		if c.Readers[i].Kind != "periodic" && rapid.Bool().Draw(t, "drop_default") {
+			c.Readers[i].DropDefault = true
+		}
+	}
 }
 
 func gen(t *rapid.T) Case {
@@ -266,6 +296,7 @@ func gen(t *rapid.T) Case {
 	}
 	c.Runs = 2
 	c.Broken = rapid.SampledFrom([]string{"", "", "", "", "", "first", "last"}).Draw(t, "broken_reader")
+	genSumView(t, &c)
 	return c
 }
 
@@ -292,6 +323,7 @@ func genSeq(t *rapid.T) Case {
 	}
 	c.Runs = 1
 	c.Broken = rapid.SampledFrom([]string{"", "", "", "", "first", "last"}).Draw(t, "broken_reader")
+	genSumView(t, &c)
 	return c
 }
 
@@ -544,7 +576,7 @@ type collector interface {
 	Collect(context.Context, *metricdata.ResourceMetrics) error
 }
 
-type adder func(ctx context.Context, u int64, opt metric.AddOption)
+type adder func(ctx context.Context, u int64, opt ...metric.AddOption)
 
 // ---------------------------------------------------------------------
 // bracket arithmetic
@@ -623,10 +655,17 @@ func runOnce(c Case) ([]vk.Violation, map[string]bool) {
 			colls[ri] = pr
 			opts = append(opts, sdkmetric.WithReader(pr))
 		} else {
-			mr := sdkmetric.NewManualReader(sdkmetric.WithTemporalitySelector(selector(rd)))
+			mopts := []sdkmetric.ManualReaderOption{sdkmetric.WithTemporalitySelector(selector(rd))}
+			if rd.DropDefault && c.SumView {
+				mopts = append(mopts, sdkmetric.WithAggregationSelector(func(sdkmetric.InstrumentKind) sdkmetric.Aggregation { return sdkmetric.AggregationDrop{} }))
+			}
+			mr := sdkmetric.NewManualReader(mopts...)
 			colls[ri] = mr
 			opts = append(opts, sdkmetric.WithReader(mr))
 		}
+	}
+	if c.SumView {
+		opts = append(opts, sdkmetric.WithView(sdkmetric.NewView(sdkmetric.Instrument{Name: "*"}, sdkmetric.Stream{Aggregation: sdkmetric.AggregationSum{}})))
 	}
 	if c.Broken != "" {
 		br := sdkmetric.WithReader(sdkmetric.NewManualReader(sdkmetric.WithAggregationSelector(func(sdkmetric.InstrumentKind) sdkmetric.Aggregation {
@@ -650,24 +689,27 @@ func runOnce(c Case) ([]vk.Violation, map[string]bool) {
 		case "i64c":
 			var x metric.Int64Counter
 			x, err = m.Int64Counter(name)
-			adders[ii] = func(ctx context.Context, u int64, o metric.AddOption) { x.Add(ctx, u, o) }
+			adders[ii] = func(ctx context.Context, u int64, o ...metric.AddOption) { x.Add(ctx, u, o...) }
 		case "f64c":
 			var x metric.Float64Counter
 			x, err = m.Float64Counter(name)
-			adders[ii] = func(ctx context.Context, u int64, o metric.AddOption) { x.Add(ctx, float64(u)/8, o) }
+			adders[ii] = func(ctx context.Context, u int64, o ...metric.AddOption) { x.Add(ctx, float64(u)/8, o...) }
 		case "i64u":
 			var x metric.Int64UpDownCounter
 			x, err = m.Int64UpDownCounter(name)
-			adders[ii] = func(ctx context.Context, u int64, o metric.AddOption) { x.Add(ctx, u, o) }
+			adders[ii] = func(ctx context.Context, u int64, o ...metric.AddOption) { x.Add(ctx, u, o...) }
 		default:
 			var x metric.Float64UpDownCounter
 			x, err = m.Float64UpDownCounter(name)
-			adders[ii] = func(ctx context.Context, u int64, o metric.AddOption) { x.Add(ctx, float64(u)/8, o) }
+			adders[ii] = func(ctx context.Context, u int64, o ...metric.AddOption) { x.Add(ctx, float64(u)/8, o...) }
 		}
-		if err != nil && c.Broken == "" {
+		// (with the explicit sum view the misconfigured reader's default never
+		// comes into play: no error then)
+		brokenBites := c.Broken != "" && !c.SumView
+		if err != nil && !brokenBites {
 			bad("instrument_creation", "creating %s %s: %v", in.Kind, name, err)
 		}
-		if err == nil && c.Broken != "" {
+		if err == nil && brokenBites {
 			bad("instrument_creation", "creating %s %s reported no error although one reader asks for an aggregation that is incompatible with it", in.Kind, name)
 		}
 	}
@@ -721,14 +763,36 @@ func runOnce(c Case) ([]vk.Violation, map[string]bool) {
 	ctx := context.Background()
 	doAdd := func(a *addRec, op Op) {
 		si := idx(op.S, len(c.Sets))
-		var o metric.AddOption
-		if op.A {
-			o = metric.WithAttributes(attrs[si]...)
-		} else {
-			o = metric.WithAttributeSet(asets[si])
+		var o []metric.AddOption
+		list := attrs[si]
+		switch {
+		case op.M == 1 && len(list) >= 2:
+			h := len(list) / 2
+			o = []metric.AddOption{metric.WithAttributes(list[:h]...), metric.WithAttributes(list[h:]...)}
+		case op.M == 2 && len(list) >= 2:
+			// last value per key, then one option per key in descending key order
+			last := map[attribute.Key]attribute.KeyValue{}
+			for _, kv := range list {
+				last[kv.Key] = kv
+			}
+			ks := make([]string, 0, len(last))
+			for k := range last {
+				ks = append(ks, string(k))
+			}
+			sort.Sort(sort.Reverse(sort.StringSlice(ks)))
+			for _, k := range ks {
+				o = append(o, metric.WithAttributes(last[attribute.Key(k)]))
+			}
+		case op.M == 3 && len(list) >= 2:
+			h := len(list) / 2
+			o = []metric.AddOption{metric.WithAttributeSet(attribute.NewSet(append([]attribute.KeyValue{}, list[:h]...)...)), metric.WithAttributes(list[h:]...)}
+		case op.A:
+			o = []metric.AddOption{metric.WithAttributes(list...)}
+		default:
+			o = []metric.AddOption{metric.WithAttributeSet(asets[si])}
 		}
 		a.start = clock.Tick()
-		adders[a.inst](ctx, a.units, o)
+		adders[a.inst](ctx, a.units, o...)
 		a.end = clock.Tick()
 		a.done = true
 	}
@@ -1215,6 +1279,10 @@ func run(c Case) ([]vk.Violation, vk.Info) {
 		info.ClassIf(r.Kind == "periodic" && r.IntervalUs > 1e6, "periodic_reader_without_ticks")
 	}
 	info.ClassIf(c.Broken != "", "extra_misconfigured_reader")
+	info.ClassIf(c.SumView, "explicit_sum_view")
+	for _, r := range c.Readers {
+		info.ClassIf(r.DropDefault && c.SumView, "allow_list_reader(drop by default, view overrides)")
+	}
 	info.ClassIf(len(c.Readers) >= 2, "two_or_more_readers")
 	info.ClassIf(len(kinds) >= 2, "mixed_temporalities")
 	nadds, zero, neg, recorders := 0, false, false, 0
